@@ -134,7 +134,15 @@ def run(ctx):
         ctx.case(("ser3", str(case["m"]), str(case["inst"])))
         writers_agree(ctx, r.obj, r.ctx, info, ns_map=rt.NS_MAPS[k % len(rt.NS_MAPS)])
         text = rb.render_doc(case["doc"], k % 3)
-        handlers_agree(ctx, text, r.mod.Root, r.ctx, info, tags_native_tree=["F14"] if c09.has_qualified_qname(case["doc"]) else [])
+        f14 = ["F14"] if c09.has_qualified_qname(case["doc"]) else []
+        handlers_agree(ctx, text, r.mod.Root, r.ctx, info, tags_native_tree=f14)
+        if k % 3 == 0:
+            # markup that interrupts a run of character data: both pumps must still deliver the whole value
+            base = rb.render_doc(case["doc"], 0)
+            for how in ("comment-in-text", "pi-in-text", "cdata-in-text"):
+                alt = hb.respell(base, how)
+                if alt != base:
+                    handlers_agree(ctx, alt, r.mod.Root, r.ctx, {**info, "key": (k, how), "respell": how}, tags_native_tree=f14)
     if cases:
         c = cases[len(cases) // 2]
         ctx.sample({"document": rb.render_doc(c["doc"], 0), "sources": hb.SOURCES, "handlers": ["native", "lxml"]})
